@@ -58,12 +58,13 @@ def _clauses(m, n):
 
 
 for _m in (1, 2):
-    for _n in (1, 2):
+    for _n in (1, 2, 3):
         _ens, _refuse = _clauses(_m, _n)
         CONTRACTS["model:Population.initialize_compartments#acceptance_m%d_n%d" % (_m, _n)] = dict(
             schema=schema, fragment={"after": "x = np.linalg.lstsq("}, make_env=_make_env(_m, _n),
             params={"parset": "const:None", "framework": "const:None", "t_init": "real"},
-            ensures=_ens, raises={"BadInitialization": _refuse}, raises_props=["C07"], defined_props=["C07"], m=_m, n=_n)
+            ensures=_ens, raises={"BadInitialization": _refuse}, raises_props=["C07"], defined_props=["C07"], m=_m, n=_n,
+            tiers=(["quick", "thorough"] if _n <= 2 else ["thorough"]))
 
 
 def _replay(model, contract):
